@@ -18,11 +18,35 @@ type (
 	Mutex     = rsync.Mutex
 	RWMutex   = rsync.RWMutex
 	WaitGroup = rsync.WaitGroup
-	Once      = rsync.Once
 	Map       = rsync.Map
 	Cond      = rsync.Cond
 	Locker    = rsync.Locker
 )
+
+// Once: under the scheduler a task that calls Do while another task is still inside f (it was
+// pre-empted there) waits inside the simulator; blocking in the real Once would put every
+// goroutine of the process to sleep.
+type Once struct {
+	real    rsync.Once
+	done    bool
+	running bool
+}
+
+func (o *Once) Do(f func()) {
+	if !zsim.Active() {
+		o.real.Do(f)
+		return
+	}
+	if o.running {
+		zsim.Block("once", func() bool { return !o.running })
+	}
+	if o.done {
+		return
+	}
+	o.running = true
+	defer func() { o.running = false; o.done = true }()
+	o.real.Do(f)
+}
 
 func NewCond(l Locker) *Cond { return rsync.NewCond(l) }
 
